@@ -620,6 +620,36 @@ def independence_case(tag, kind, order, storage, x_variant):
     return results, lr.errors, pending, pX
 
 
+def same_key_other_certificate_case(tag, kind, order, storage):
+    """ONE instance; pG: a valid packet signed by alice's last-level key with that certificate as key locator; pGhost: a packet
+    signed by the SAME key whose key locator names a certificate of that key that was never issued (same key name, other
+    issuer id).  Whatever was validated before, pGhost has no retrievable certificate and must be refused."""
+    rng = random.Random('c14-ghost-' + tag)
+    A = Pki(rng, 3, 0, tag + 'G')
+    c = A.levels['alice'][A.depth - 1]
+    ghost_name = list(c.name[:-2]) + [comp('ghost'), c.name[-1]]
+    pG = A.data
+    pGhost = make_elem([comp('s'), comp('data'), comp('alice'), comp('g')], b'g', c.holds, ghost_name)
+    packets = {'pG': pG, 'pGhost': pGhost}
+    lr = LoopRun()
+    results = []
+    try:
+        async def go():
+            v = build_lvs_validator(A.schema, A.world, A.anchor, storage)[0] if kind == 'lvs' else build_cascade(A.world, A.anchor, storage)[0]
+            for pk in order:
+                e = packets[pk]
+                try:
+                    got = await validate(v, e)
+                except Exception as ex:   # noqa - reported
+                    got = ex
+                exp = oracle_accept(A.world, A.ref if kind == 'lvs' else None, A.anchor, e)
+                results.append(('A', pk, got, exp))
+        lr.run(go())
+    finally:
+        pending = lr.close()
+    return results, lr.errors, pending, pGhost
+
+
 # ------------------------------------------------------------------------------------------------- driver
 
 def pki_params(idx):
@@ -693,6 +723,22 @@ def run_independence(idx, seed):
                             out.append((key, what, inp))
                     if errors:
                         out.append(('C14:unhandled-error-in-loop:' + kind, '%s' % errors[:2], inp))
+        # one instance, one key, two certificate names: the cache must not make a never-issued certificate acceptable
+        for order in (('pG', 'pGhost'), ('pGhost', 'pG'), ('pG', 'pGhost', 'pG', 'pGhost')):
+            for storage in ('default', 'fresh'):
+                tag = 'g%d-%s-%s-%s-%d' % (idx, kind, '-'.join(order), storage, seed)
+                results, errors, pending, pGhost = same_key_other_certificate_case(tag, kind, order, storage)
+                evals += len(results)
+                hashes.add(L.case_hash('ghost', kind, order, storage, pGhost.wire))
+                inp = {'part': 'ghost', 'idx': idx, 'seed': seed, 'kind': kind, 'order': list(order), 'storage': storage}
+                for inst, pk, got, exp in results:
+                    if got is not exp:
+                        out.append(('C14:verdict-depends-on-history:same-key-other-certificate:' + kind,
+                                    'packet %s: verdict %r, oracle %r, order %s, storage %s (a key locator naming a certificate that '
+                                    'was never issued is accepted once another certificate of the same key was validated)' % (
+                                        pk, got, exp, list(order), storage), inp))
+                if errors:
+                    out.append(('C14:unhandled-error-in-loop:' + kind, '%s' % errors[:2], inp))
     return out, evals, hashes
 
 
@@ -730,6 +776,13 @@ def run(tier: str, seed: int, shard: tuple[int, int]) -> dict:
 def replay(rec: dict) -> tuple[bool, str]:
     inp = rec['input']
     want = rec.get('key')
+    if inp['part'] == 'ghost':
+        tag = 'g%d-%s-%s-%s-%d' % (inp['idx'], inp['kind'], '-'.join(inp['order']), inp['storage'], inp['seed'])
+        results, errors, pending, _ = same_key_other_certificate_case(tag + '-replay', inp['kind'], tuple(inp['order']), inp['storage'])
+        bad = [(pk, repr(got), exp) for inst, pk, got, exp in results if got is not exp]
+        if bad or errors:
+            return False, 'verdict != oracle for %r %r' % (bad, errors)
+        return True, 'all verdicts equal the oracle'
     if inp['part'] == 'independence':
         tag = 'i%d-%s-%d-%d-%s-%d' % (inp['idx'], inp['kind'], inp['x_variant'], 0, inp['storage'], inp['seed'])
         results, errors, pending, _ = independence_case(tag + '-replay', inp['kind'], tuple(inp['order']),
